@@ -82,8 +82,10 @@ CLAIMS = {
    note=SMNOTE + "Assumes the documented Storage contract (writes cached until an atomic commit; reads return what was last written). last_update_time rules of start_update_check pending.",
    technique="contract-based deductive verification (Verus) with ghost interaction logs", design="4/C08"),
  "C09": dict(
-   text="Proof (Verus): successful ping updates the app set to apps_updated(old, responses) (field-wise cohort merge, user counting replaced), failed ping leaves it unchanged; make_app_responses carries cohort and day; UserCounting::from.",
-   note=SMNOTE + "AppSetExt::update_from_omaha / App::load/persist real bodies are verified in the app_set group when present; here their contracts are assumed.",
+   text="Proof (Verus) of the real Cohort::update_from_omaha (field-wise: a field the response carries, even empty, replaces; an absent one is kept), AppSetExt::update_from_omaha (every app of the set takes cohort merge and user counting of the FIRST response entry naming its id; apps not named are unchanged; nested loops with inductive invariants over the embedder's mutable app iterator), "
+        "App::load (only unset cohort fields / unset user counting are filled from the record stored under the app id; undecodable or missing record changes nothing), App::persist (one SetString(app id, JSON of cohort + user counting), no commit), PersistedApp::from, VecAppSet's AppSet impl (witness that the assumed AppSet contract is implementable), lemma persist-then-load restores every unset field; "
+        "in the state-machine group: a successful ping / update check updates the app set to exactly that function of the parsed response and a failed one leaves it unchanged; make_app_responses carries cohort and day number; UserCounting::from; the wire side (cohort, ping ad = rd) is C15's From<AppEntry>.",
+   note=SMNOTE + "AppSet::iter_mut_apps is modelled as yielding mutable references to exactly get_apps' elements in order (Box<dyn Iterator> -> slice iterator type); serde_json (de)serialisation of PersistedApp is uninterpreted with an assumed round trip; AppSetExt::load/persist (async-block wrappers looping over the apps) remain assumed in the state-machine group.",
    technique="contract-based deductive verification (Verus) with ghost interaction logs", design="4/C09"),
  "C10": dict(
    text="Proof (Verus) of report_omaha_event_and_update_context: exactly the apps with an entry in next_versions get the event, with previous version = app version and next version = offered manifest version, "
